@@ -1199,6 +1199,136 @@ theorem shared_unselected_untouched (f : σ → Item → Step σ Item) (sel : It
         simp only [sharedStep, hr, hf, pass, Heap.record, List.foldl_cons, List.foldl_nil]
         exact ⟨trivial, trivial, trivial, fun t => Or.inl trivial, trivial⟩
 
+/-! ## 4f. Seed round I/J: the bin `select_bins` is shown is the WHOLE bin with zero index on every axis
+
+`IterateBins.run` / `MapBins.run` test `select_bins` on `get_example_bin(hist)`.  The loop bodies of section 2 abstract
+that bin by `h.bin`.  Here the nested Python lists are modelled (`PyV`, `HistD.binsVal`, `getBinOnIndex`,
+`exampleOfHist`), and the abstraction is proved: for every histogram with `dim` axes of at least one bin, whatever the
+bins hold — also lists, empty lists, lists of histograms — the example bin is the bin itself, so a histogram whose
+bins are containers is selected by the class of the container only and passes otherwise ("yield every value they do
+not select as the very same object").  The descent `while isinstance(bins, list): bins = bins[0]` (what
+`get_example_bin` does for a bare array of bins) agrees with it exactly when the bins are not lists. -/
+
+/-- `kindOfPyV` reads back the kind of a bin from its value -/
+theorem kindOfPyV_binVal (k : BinKind) : kindOfPyV (binVal k) = k := by
+  cases k with
+  | cont c f => cases c <;> cases f <;> rfl
+  | _ => rfl
+
+/-- `get_bin_on_index([0] * dim, bins)`: one subscript per axis — the bin at index 0…0, whole, for every content
+`b` of the bins (all shapes with at least one bin per axis) -/
+theorem getBinOnIndex_nestBins (b : PyV) (shape : List Nat) (h : ∀ n ∈ shape, 0 < n) :
+    getBinOnIndex (List.replicate shape.length 0) (nestBins b shape) = .ok b := by
+  induction shape with
+  | nil => simp [nestBins, getBinOnIndex]
+  | cons n ns ih =>
+    have hn : 0 < n := h n (by simp)
+    have hns : ∀ m ∈ ns, 0 < m := fun m hm => h m (by simp [hm])
+    obtain ⟨k, rfl⟩ : ∃ k, n = k + 1 := ⟨n - 1, by omega⟩
+    simp only [List.length_cons, List.replicate_succ, nestBins, getBinOnIndex, List.getElem?_cons_zero]
+    exact ih hns
+
+/-- `get_example_bin(hist)` is the bin of `hist`, whatever it holds (a list in a bin is returned whole) -/
+theorem exampleOfHist_wellShaped (h : HistD) (hw : h.WellShaped) :
+    exampleOfHist h.dim h.binsVal = .ok (binVal h.bin) := by
+  obtain ⟨hl, hp⟩ := hw
+  unfold exampleOfHist HistD.binsVal
+  rw [← hl]
+  exact getBinOnIndex_nestBins _ _ hp
+
+/-- the loop body of `IterateBins.run` with the example bin computed on the nested lists IS the transcribed body
+(which tests `select_bins` on `h.bin`) -/
+theorem iterateBinsStepE_eq (sb : BinKind → Bool) (s : σ) (v : Item)
+    (hw : ∀ h, v.data = .hist h → h.WellShaped) :
+    iterateBinsStepE sb s v = iterateBinsStep sb s v := by
+  unfold iterateBinsStepE
+  cases hd : v.data with
+  | hist h =>
+    simp only [exampleOfHist_wellShaped h (hw h hd), kindOfPyV_binVal]
+    unfold iterateBinsStep
+    simp [hd]
+  | _ => unfold iterateBinsStep; simp [hd]
+
+/-- the same for `MapBins.run` -/
+theorem mapBinsStepE_eq (sb : BinKind → Bool) (inner : Item → CellRes) (dc : Bool) (s : σ) (v : Item)
+    (hw : ∀ h, v.data = .hist h → h.WellShaped) :
+    mapBinsStepE sb inner dc s v = mapBinsStep sb inner dc s v := by
+  unfold mapBinsStepE
+  cases hd : v.data with
+  | hist h =>
+    simp only [exampleOfHist_wellShaped h (hw h hd), kindOfPyV_binVal]
+    unfold mapBinsStep
+    simp [hd]
+  | _ => unfold mapBinsStep; simp [hd]
+
+/-- `IterateBins`, example bin looked up on the nested lists: what `select_bins` rejects passes -/
+theorem iterateBinsE_passes (sb : BinKind → Bool) (s : σ) (v : Item)
+    (hw : ∀ h, v.data = .hist h → h.WellShaped) (hsel : iterateBinsSel sb v = false) :
+    iterateBinsStepE sb s v = pass s v := by
+  rw [iterateBinsStepE_eq sb s v hw]
+  exact iterateBins_passes sb s v hsel
+
+/-- `MapBins` likewise -/
+theorem mapBinsE_passes (sb : BinKind → Bool) (inner : Item → CellRes) (dc : Bool) (s : σ) (v : Item)
+    (hw : ∀ h, v.data = .hist h → h.WellShaped) (hsel : mapBinsSel sb v = false) :
+    mapBinsStepE sb inner dc s v = pass s v := by
+  rw [mapBinsStepE_eq sb inner dc s v hw]
+  exact mapBins_passes sb inner dc s v hsel
+
+/-- **container bins**: a histogram whose bins are containers of a class `select_bins` rejects passes `IterateBins`
+as it is — whatever stands in the containers (`f`: nothing, a histogram, a pair, a list …), for every shape -/
+theorem iterateBins_container_bins_pass (sb : BinKind → Bool) (s : σ) (v : Item) (h : HistD) (c : ContCls)
+    (hd : v.data = .hist h) (hw : h.WellShaped) (hc : ∀ f, sb (.cont c f) = false) (f : ContFirst)
+    (hb : h.bin = .cont c f) :
+    iterateBinsStepE sb s v = pass s v := by
+  apply iterateBinsE_passes
+  · intro h' hh; rw [hd] at hh; cases hh; exact hw
+  · simp [iterateBinsSel, hd, hb, hc f]
+
+/-- the same for `MapBins` -/
+theorem mapBins_container_bins_pass (sb : BinKind → Bool) (inner : Item → CellRes) (dc : Bool) (s : σ) (v : Item)
+    (h : HistD) (c : ContCls) (hd : v.data = .hist h) (hw : h.WellShaped) (hc : ∀ f, sb (.cont c f) = false)
+    (f : ContFirst) (hb : h.bin = .cont c f) :
+    mapBinsStepE sb inner dc s v = pass s v := by
+  apply mapBinsE_passes
+  · intro h' hh; rw [hd] at hh; cases hh; exact hw
+  · simp [mapBinsSel, hd, hb, hc f]
+
+/-- the descent `while isinstance(bins, list): bins = bins[0]` does not stop at the bin: it goes on INTO the bin -/
+theorem exampleOfArray_nestBins (b : PyV) (shape : List Nat) (h : ∀ n ∈ shape, 0 < n) :
+    exampleOfArray (nestBins b shape) = exampleOfArray b := by
+  induction shape with
+  | nil => rfl
+  | cons n ns ih =>
+    have hn : 0 < n := h n (by simp)
+    have hns : ∀ m ∈ ns, 0 < m := fun m hm => h m (by simp [hm])
+    obtain ⟨k, rfl⟩ : ∃ k, n = k + 1 := ⟨n - 1, by omega⟩
+    simp only [nestBins, List.replicate_succ, exampleOfArray]
+    exact ih hns
+
+/-- … so the two ways of `get_example_bin` agree on histograms whose bins are not lists (numbers, histograms, tuples,
+pairs, dictionaries): that is why no test with such bins tells them apart -/
+theorem exampleOfArray_eq_exampleOfHist_of_not_list (h : HistD) (hw : h.WellShaped)
+    (hb : ∀ f, h.bin ≠ .cont .list f) :
+    exampleOfArray h.binsVal = exampleOfHist h.dim h.binsVal := by
+  rw [exampleOfHist_wellShaped h hw, HistD.binsVal, exampleOfArray_nestBins _ _ hw.2]
+  cases hk : h.bin with
+  | cont c f =>
+    cases c with
+    | list => exact absurd hk (hb f)
+    | _ => rfl
+  | _ => rfl
+
+/-- … and differ on lists: with an empty list in bin 0 the descent raises `IndexError` on an unselected value, with
+a list that starts with a histogram it takes the histogram of lists for a histogram of histograms -/
+theorem arrayDescent_differs (sb : BinKind → Bool) (s : σ) (v : Item) (h : HistD) (hd : v.data = .hist h)
+    (hw : h.WellShaped) :
+    (h.bin = .cont .list .empty → iterateBinsStepArr sb s v = ⟨[], s, some .indexError⟩) ∧
+    (h.bin = .cont .list .hist → iterateBinsStepArr sb s v = iterateBinsStep (fun _ => sb .hist) s v) := by
+  unfold iterateBinsStepArr
+  simp only [hd, HistD.binsVal, exampleOfArray_nestBins _ _ hw.2]
+  constructor <;> intro hb <;> simp [hb, binVal, contItems, exampleOfArray, kindOfPyV]
+
 /-! ## 5. Non-vacuity: concrete instances of the hypotheses and of the runs -/
 
 section examples
@@ -1388,6 +1518,40 @@ def exPairBinsOff : Item :=
 example : histToGraphDoc exPairBinsOff = false := by decide
 example : histToGraphStep ⟨.default, 2, false⟩ () exPairBinsOff = pass () exPairBinsOff :=
   histToGraph_passes_doc _ () _ (by decide)
+
+/-! seed round I/J: histograms whose bins hold containers -/
+
+/-- what `SplitIntoBins(StoreFilled(), …)` makes: a list per bin, the first one empty (2 x 1 bins) -/
+def exStored : Item := ⟨.src 20, .hist ⟨7, 2, [2, 1], .cont .list .empty⟩, some ⟨.src 21, [("variable", .dict [("name", .str "x")])]⟩⟩
+/-- a list of histograms in every bin -/
+def exListOfHists : Item := ⟨.src 22, .hist ⟨8, 1, [2], .cont .list .hist⟩, none⟩
+/-- the default `select_bins` of `IterateBins`: histograms -/
+def sbHist : BinKind → Bool := fun k => k.cls == "histogram"
+
+example : (⟨7, 2, [2, 1], .cont .list .empty⟩ : HistD).WellShaped := by
+  refine ⟨rfl, ?_⟩
+  intro n hn
+  simp at hn
+  omega
+-- the example bin of the histogram is the (empty) list itself; the descent into the array of bins falls through it
+example : (match exampleOfHist 2 (HistD.binsVal ⟨7, 2, [2, 1], .cont .list .empty⟩) with
+    | .ok (.list []) => true | _ => false) = true := by decide
+example : (match exampleOfArray (HistD.binsVal ⟨7, 2, [2, 1], .cont .list .empty⟩) with
+    | .indexError => true | _ => false) = true := by decide
+example : (match exampleOfArray (HistD.binsVal ⟨8, 1, [2], .cont .list .hist⟩) with
+    | .ok (.atom .hist) => true | _ => false) = true := by decide
+-- hypotheses of `iterateBins_container_bins_pass`: a list is not a histogram, whatever it holds
+example : ∀ f, sbHist (.cont .list f) = false := by intro f; rfl
+-- both pass `IterateBins()` as they are, in order, next to a histogram of histograms that is iterated
+example : ((loop (iterateBinsStepE sbHist) () [exStored, exListOfHists]).blocks.map (·.map (·.tok)),
+    (loop (iterateBinsStepE sbHist) () [exStored, exListOfHists]).err)
+    = ([[.src 20], [.src 22]], none) := by decide
+-- the body with the array descent (NOT the code) raises on the first and takes the second apart
+example : (iterateBinsStepArr sbHist () exStored).err = some .indexError := by decide
+example : ((iterateBinsStepArr sbHist () exListOfHists).out.map (·.tok)) = [.made (.src 22) 0, .made (.src 22) 2] := by decide
+-- `MapBins(seq, select_bins=[tuple])` passes a histogram of lists
+example : (mapBinsStepE (fun k => k.cls == "tuple") (cellInnerApply .dup) true () exListOfHists).out.map (·.tok)
+    = [.src 22] := by decide
 
 end examples
 
